@@ -41,7 +41,8 @@ VARIABLES Sat, val,                 \* the problem (chosen in Init, then constan
 
 vars == <<Sat, val, pc, lower, upper, pivot, first, best, depth, g, fixed, result, retNone, pval, plast, blocked, error>>
 
-NG == IF Mode = "single" THEN 1 ELSE 2
+IsLex == Mode \in {"lex", "lex3"}
+NG == IF Mode = "single" THEN 1 ELSE IF Mode = "lex3" THEN 3 ELSE 2
 
 \* models the solver may answer with while optimising goal g (lexicographic: earlier goals fixed)
 Feasible == {m \in Sat : \A k \in 1..Len(fixed) : val[k][m] = fixed[k]}
@@ -67,7 +68,7 @@ Init == /\ Sat \in SUBSET M
 \* ---- _optimize ---------------------------------------------------------------
 Setup ==    \* client_data = self._setup(); current = OptSearchInterval(...)
     /\ pc = "setup"
-    /\ ~(Mode = "lex" /\ g = 1 /\ depth = 0)        \* lexicographic_optimize pushes first (LexSetup)
+    /\ ~(IsLex /\ g = 1 /\ depth = 0)        \* lexicographic_optimize pushes first (LexSetup)
     /\ depth' = depth + 1
     /\ lower' = InitBounds[1] /\ upper' = InitBounds[2] /\ pivot' = None /\ first' = TRUE /\ best' = 0
     /\ pc' = "loop"
@@ -143,7 +144,7 @@ Return ==
     /\ UNCHANGED <<Sat, val, lower, upper, pivot, first, best, pval, plast, blocked, error>>
 
 LexSetup ==  \* the extra push of lexicographic_optimize, taken once before goal 1
-    /\ Mode = "lex" /\ pc = "setup" /\ g = 1 /\ depth = 0
+    /\ IsLex /\ pc = "setup" /\ g = 1 /\ depth = 0
     /\ depth' = 1
     /\ UNCHANGED <<Sat, val, pc, lower, upper, pivot, first, best, g, fixed, result, retNone, pval, plast, blocked, error>>
 
@@ -189,7 +190,9 @@ NoneIffUnsat == pc = "done" /\ Mode # "pareto" /\ ~error => (retNone <=> (Sat = 
 ResultIsOptimum ==
     pc = "done" /\ ~error /\ Sat # {} =>
         CASE Mode = "single" -> result = <<Opt(Sat, 1)>>
-          [] Mode = "lex" -> result = <<Opt(Sat, 1), Opt({m \in Sat : val[1][m] = Opt(Sat, 1)}, 2)>>
+          [] IsLex -> LET RECURSIVE LexSet(_)
+                          LexSet(k) == IF k = 0 THEN Sat ELSE LET S == LexSet(k - 1) IN {m \in S : val[k][m] = Opt(S, k)}
+                      IN  result = [k \in 1..NG |-> Opt(LexSet(k - 1), k)]
           [] Mode = "pareto" ->
                 LET front == {Cost(m) : m \in {m \in Sat : ~\E o \in Sat :
                                   BetterEq(val[1][o], val[1][m]) /\ BetterEq(val[2][o], val[2][m])
